@@ -37,10 +37,13 @@ def call(pts, tol, mode):
     sc = 0.25 if h_ == 0 else (2.0 ** -20 if h_ == 3 else (0.1 if h_ == 1 else 1.0))
     e["scale"] = sc
     hist = (len(pts) + int(sum(p[0] + 2 * p[1] for p in pts)) + (1 if mode == "dp" else 0)) % 2 == 0
+    # fixes are identified by their timestamp, and by a tag in z as well - except in the micrometre unit, where z is 0 everywhere
+    # (consecutive fixes are then close on EVERY axis)
+    ztag = (lambda k: float(k + 1)) if sc > 1e-3 else (lambda k: 0.0)
     md = MODE_SIMPLIFY_DOUGLAS_PEUCKER if mode == "dp" else MODE_SIMPLIFY_VISVALINGAM
     if hist:
         e["hist"] = "simplified before, fixes then moved in place"
-        tr = Track([Obs(ENUCoords(float(9 - p[1]), float(p[0] * (-1) ** k), float(k + 1)), ObsTime.readUnixTime(t0 + k)) for k, p in enumerate(pts)])
+        tr = Track([Obs(ENUCoords(float(9 - p[1]), float(p[0] * (-1) ** k), ztag(k)), ObsTime.readUnixTime(t0 + k)) for k, p in enumerate(pts)])
         try:
             with core.quiet():
                 first = simplify(tr, float(tol) * sc * (3 if len(pts) % 2 else 1), md)        # (with the same or with another tolerance)
@@ -49,22 +52,24 @@ def call(pts, tol, mode):
         except (Exception, SystemExit):
             pass
         if tr.size() != len(pts):        # (the result of a tiny track may share its list with the input: start again)
-            tr = Track([Obs(ENUCoords(0.0, 0.0, float(k + 1)), ObsTime.readUnixTime(t0 + k)) for k, p in enumerate(pts)])
+            tr = Track([Obs(ENUCoords(0.0, 0.0, ztag(k)), ObsTime.readUnixTime(t0 + k)) for k, p in enumerate(pts)])
         for k, p in enumerate(pts):
             tr.getObs(k).position.setX(float(p[0]) * sc)
             tr.getObs(k).position.setY(float(p[1]) * sc)
     else:
         # whole coordinates are handed over as Python ints in a third of these calls (ENUCoords(3, 4, 0) is what users write)
         cf = (lambda v: int(v)) if sc == 1.0 and len(pts) % 3 == 0 else (lambda v: float(v) * sc)
-        tr = Track([Obs(ENUCoords(cf(p[0]), cf(p[1]), float(k + 1)), ObsTime.readUnixTime(t0 + k)) for k, p in enumerate(pts)])
+        tr = Track([Obs(ENUCoords(cf(p[0]), cf(p[1]), ztag(k)), ObsTime.readUnixTime(t0 + k)) for k, p in enumerate(pts)])
     try:
         with core.quiet():
             out = simplify(tr, int(tol) if tol.denominator == 1 and len(pts) % 2 and sc == 1.0 else float(tol) * sc, md)
         kept = []
         for k in range(out.size()):
             o = out.getObs(k)
-            tag = o.position.getZ()
-            idx = int(round(tag)) if abs(tag - round(tag)) < 1e-9 else 0
+            tag = o.timestamp.toAbsTime() - t0 + 1
+            idx = int(round(tag)) if abs(tag - round(tag)) < 1e-6 else 0
+            if idx and abs(o.position.getZ() - ztag(idx - 1)) > 1e-9:
+                idx = 0
             if not (1 <= idx <= len(pts)) or abs(o.position.getX() / sc - pts[idx - 1][0]) > 1e-9 or abs(o.position.getY() / sc - pts[idx - 1][1]) > 1e-9 \
                     or abs(o.timestamp.toAbsTime() - (t0 + idx - 1)) > 1e-6:
                 idx = 0
